@@ -436,27 +436,50 @@ func ruleTableNoRewrite(p *Prog, r *Report) {
 		}
 		var rewrites []string
 		encoder := false
-		eachInstr(fn, func(b *ssa.BasicBlock, in ssa.Instruction) {
-			ret, ok := in.(*ssa.Return)
-			if !ok {
-				return
-			}
-			for v := range backwardSlice(fn, ret.Results[0]) {
-				c, ok := v.(*ssa.Call)
+		// follow tail calls into module helpers (depth-bounded): the bytes are produced where the encoder is called
+		var scan func(f *ssa.Function, depth int)
+		scan = func(f *ssa.Function, depth int) {
+			eachInstr(f, func(b *ssa.BasicBlock, in ssa.Instruction) {
+				ret, ok := in.(*ssa.Return)
 				if !ok {
-					continue
+					return
 				}
-				if g := staticCallee(&c.Call); g != nil {
+				for v := range backwardSlice(f, ret.Results[0]) {
+					c, ok := v.(*ssa.Call)
+					if !ok {
+						continue
+					}
+					g := staticCallee(&c.Call)
+					if g == nil {
+						continue
+					}
+					if p.InModule(g) {
+						if depth < 3 && g != f {
+							scan(g, depth+1)
+						}
+						continue
+					}
 					nm := extName(g)
 					if hasPrefixAny(nm, "bytes.Replace", "strings.Replace", "bytes.Map", "strings.Map", "(*regexp.Regexp).Replace", "(*strings.Replacer).") {
 						rewrites = append(rewrites, nm+" at "+p.Pos(c.Pos()))
 					}
-					if hasPrefixAny(nm, "encoding/json.Marshal", "(*encoding/json.Encoder).Encode") || nm == "(*bytes.Buffer).Bytes" {
+					if hasPrefixAny(nm, "encoding/json.Marshal") {
 						encoder = true
 					}
+					if nm == "(*bytes.Buffer).Bytes" {
+						// the buffer must be the one an encoding/json Encoder writes to
+						eachInstr(f, func(b2 *ssa.BasicBlock, i2 ssa.Instruction) {
+							if c2, ok := i2.(*ssa.Call); ok && isCallTo(&c2.Call, "encoding/json.NewEncoder") {
+								if mi, ok := c2.Call.Args[0].(*ssa.MakeInterface); ok && mi.X == c.Call.Args[0] {
+									encoder = true
+								}
+							}
+						})
+					}
 				}
-			}
-		})
+			})
+		}
+		scan(fn, 0)
 		if len(rewrites) > 0 {
 			r.Bad(rule, n, "encoded bytes are not rewritten", p.Pos(fn.Pos()), "the document produced by encoding/json is post-processed textually ("+strings.Join(uniq(rewrites), "; ")+"): string values that contain the replaced sequences are corrupted")
 		} else if encoder {
@@ -470,22 +493,35 @@ func ruleTableNoRewrite(p *Prog, r *Report) {
 			r.Unknown(rule, n, "safeEncoding selects the escaping mode", p.Pos(fn.Pos()), "no variadic parameter")
 			continue
 		}
-		sl := forwardSlice(fn, va)
 		sel := false
-		for in := range sl {
-			switch x := in.(type) {
-			case *ssa.If:
-				sel = true
-			case ssa.CallInstruction:
-				if isCallTo(x.Common(), "(*encoding/json.Encoder).SetEscapeHTML") {
-					sel = true
+		var follow func(f *ssa.Function, seed ssa.Value, depth int)
+		follow = func(f *ssa.Function, seed ssa.Value, depth int) {
+			for in := range forwardSlice(f, seed) {
+				switch x := in.(type) {
+				case ssa.CallInstruction:
+					cm := x.Common()
+					if isCallTo(cm, "(*encoding/json.Encoder).SetEscapeHTML") {
+						sel = true
+					}
+					if g := staticCallee(cm); g != nil && p.InModule(g) && depth < 3 {
+						sl := forwardSlice(f, seed)
+						for i, a := range cm.Args {
+							if ai, ok := a.(ssa.Instruction); ok && sl[ai] && i < len(g.Params) {
+								follow(g, g.Params[i], depth+1)
+							}
+							if a == seed && i < len(g.Params) {
+								follow(g, g.Params[i], depth+1)
+							}
+						}
+					}
 				}
 			}
 		}
+		follow(fn, va, 0)
 		if sel {
-			r.OK(rule, n, "safeEncoding selects the escaping mode", p.Pos(fn.Pos()), "the option value reaches SetEscapeHTML or a branch")
+			r.OK(rule, n, "safeEncoding selects the escaping mode", p.Pos(fn.Pos()), "the option value reaches json.Encoder.SetEscapeHTML")
 		} else {
-			r.Bad(rule, n, "safeEncoding selects the escaping mode", p.Pos(fn.Pos()), "the option has no influence on the encoding")
+			r.Bad(rule, n, "safeEncoding selects the escaping mode", p.Pos(fn.Pos()), "the option does not reach json.Encoder.SetEscapeHTML: it has no influence on the escaping of <, > and &")
 		}
 	}
 }
